@@ -7,6 +7,7 @@ pub mod c06;
 pub mod c07;
 pub mod c09;
 pub mod c11;
+pub mod c12;
 pub mod c13;
 pub mod c15;
 pub mod c17;
@@ -22,6 +23,7 @@ pub fn run(prop: &str, tier: Tier, seed: u64) -> Option<i32> {
         "C07" => c07::run(tier, seed),
         "C09" => c09::run(tier, seed),
         "C11" => c11::run(tier, seed),
+        "C12" => c12::run(tier, seed),
         "C13" => c13::run(tier, seed),
         "C15" => c15::run(tier, seed),
         "C17" => c17::run(tier, seed),
@@ -37,6 +39,7 @@ pub fn replay(prop: &str, witness: &serde_json::Value) -> Option<i32> {
         "C07" => c07::replay(witness),
         "C09" => c09::replay(witness),
         "C11" => c11::replay(witness),
+        "C12" => c12::replay(witness),
         "C13" => c13::replay(witness),
         "C15" => c15::replay(witness),
         "C17" => c17::replay(witness),
